@@ -399,14 +399,99 @@ def add_short_reference_stream(env, res=None, directory: str = 'cut') -> int:
     return spk
 
 
+def add_sample_durations(buf: bytes, extra_last: int) -> bytes:
+    """Every trun gets per-sample durations (flag 0x100): the tfhd default for all samples but the last of the
+    fragment, which lasts `extra_last` ticks longer - the tfhd default stays in place, and the per-sample values
+    override it (14496-12 8.8.8). Decode times, sidx and the header durations follow."""
+    root = ib.parse_file(buf)
+    out = bytearray()
+    pending_sidx = None
+    decode = None
+    total_extra = 0
+    for c in root.children:
+        raw = bytearray(buf[c.start:c.end])
+        if c.type == b'sidx':
+            pending_sidx = (len(out), c)
+        elif c.type == b'moof':
+            local = ib.parse_file(bytes(raw)).children[0]
+            traf = local.find(b'traf')
+            tf, tr, td = traf.find(b'tfhd'), traf.find(b'trun'), traf.find(b'tfdt')
+            tfhd = ib.read_tfhd(raw, tf)
+            default = tfhd['default_sample_duration']
+            tv, tflags, tp = ib.fullbox(raw, tr)
+            assert not tflags & 0x100
+            count = struct.unpack_from('>I', raw, tp)[0]
+            q = tp + 4 + (4 if tflags & 1 else 0) + (4 if tflags & 4 else 0)
+            entry = 4 * bin(tflags & 0xF00).count('1')
+            body = bytearray(raw[tp:q])
+            for k in range(count):
+                body += struct.pack('>I', default + (extra_last if k == count - 1 else 0))
+                body += raw[q + k * entry:q + (k + 1) * entry]
+            grow = 4 * count
+            new_trun = bytearray(raw[tr.start:tp]) + body
+            struct.pack_into('>I', new_trun, 0, len(new_trun))
+            struct.pack_into('>I', new_trun, 8, (tv << 24) | tflags | 0x100)
+            if tflags & 1:
+                off = struct.unpack_from('>i', new_trun, 16)[0]
+                struct.pack_into('>i', new_trun, 16, off + grow)
+            _patch_sizes(raw, [local, traf], grow)
+            raw[tr.start:tr.end] = new_trun
+            # decode time of this fragment
+            dv, _, dp = ib.fullbox(raw, td)
+            fmt = '>Q' if dv else '>I'
+            if decode is None:
+                decode = struct.unpack_from(fmt, raw, dp)[0]
+            struct.pack_into(fmt, raw, dp, decode)
+            seg = default * count + extra_last
+            if pending_sidx is not None:
+                off, sb = pending_sidx
+                sv, _, sp = ib.fullbox(buf, sb)
+                base = off + (sp - sb.start)
+                struct.pack_into('>Q' if sv else '>I', out, base + 8, decode)
+                ref = base + (28 if sv else 20)
+                word = struct.unpack_from('>I', out, ref)[0]
+                struct.pack_into('>I', out, ref, (word & 0x80000000) | ((word & 0x7FFFFFFF) + grow))
+                struct.pack_into('>I', out, ref + 4, seg)
+            pending_sidx = None
+            decode += seg
+            total_extra += extra_last
+        out += raw
+    # header durations
+    res = bytes(out)
+    root2 = ib.parse_file(res)
+    out2 = bytearray(res)
+    moov = root2.find(b'moov')
+    mdhd = moov.find(b'trak', b'mdia', b'mdhd')
+    v, _, p = ib.fullbox(res, mdhd)
+    ts = struct.unpack_from('>I', res, p + (16 if v else 8))[0]
+    fmt, pos = ('>Q', p + 20) if v else ('>I', p + 12)
+    struct.pack_into(fmt, out2, pos, struct.unpack_from(fmt, res, pos)[0] + total_extra)
+    mvhd = moov.find(b'mvhd')
+    mv, _, mp = ib.fullbox(res, mvhd)
+    movie_ts = struct.unpack_from('>I', res, mp + (16 if mv else 8))[0]
+    add = total_extra * movie_ts // ts
+    for box, offs in ((mvhd, (20, 12)), (moov.find(b'trak', b'tkhd'), (24, 16)), (moov.find(b'mvex', b'mehd'), (0, 0))):
+        if box is None:
+            continue
+        bv, _, bp = ib.fullbox(res, box)
+        fmt, pos = ('>Q', bp + offs[0]) if bv else ('>I', bp + offs[1])
+        struct.pack_into(fmt, out2, pos, struct.unpack_from(fmt, res, pos)[0] + add)
+    return bytes(out2)
+
+
 def add_long_first_fragment_stream(env, res=None, directory: str = 'sy8') -> int:
     """video whose first fragment lasts 1.68 x the others (an encoder that starts with a long GOP): the later
     segments start more than half a nominal segment duration after their nominal start"""
     from dlv.appenv import FIXTURES
     fx = FIXTURES / 'bbb'
     video = retime((fx / 'bbb_v7.mp4').read_bytes(), 90000, [6300] + [3750] * 9)
-    files = {'sy8_v1': video, 'sy8_a1': (fx / 'bbb_a1.mp4').read_bytes()}
-    spk = env.add_stream(directory, title='Synthetic: long first fragment', files=files)
+    # audio whose truns carry per-sample durations next to the tfhd default (the last sample of every fragment
+    # lasts 512 ticks longer)
+    audio = add_sample_durations((fx / 'bbb_a1.mp4').read_bytes(), 512)
+    sfa = ib.index_file(audio)
+    assert len(sfa.segments) == 10 and sfa.segments[0].duration == 176128 + 512, sfa.segments[0].duration
+    files = {'sy8_v1': video, 'sy8_a1': audio}
+    spk = env.add_stream(directory, title='Synthetic: long first fragment, per-sample durations', files=files)
     if res is not None:
         res.count('synthetic.streams')
     return spk
